@@ -147,6 +147,10 @@ def multiTreeCmd (nl nm : Nat) (ops : List Sexp) : Sexp :=
         go ls (ms.mapIdx fun k st => if k == nat i then st ++ [.leaf (nat j)] else st) (acc.push (.atom "ok")) rest
       | .list [.atom "add", .atom i, .list [.atom "multi", .atom j]] =>
         go ls (ms.mapIdx fun k st => if k == nat i then st ++ [.multi (nat j)] else st) (acc.push (.atom "ok")) rest
+      | .list [.atom "init", .atom i, .atom j, .atom a, .atom b] =>
+        -- two stacks built from one argument list (`NewLoader(base...)` twice): each holds the two leaves
+        go ls (ms.mapIdx fun k st => if k == nat i || k == nat j then st ++ [.leaf (nat a), .leaf (nat b)] else st)
+          (acc.push (.atom "ok")) rest
       | .list [.atom "clear", .atom i] =>
         go ls (ms.mapIdx fun k st => if k == nat i then [] else st) (acc.push (.atom "ok")) rest
       | .list [.atom "exists", .atom i, .bytes p] =>
